@@ -100,10 +100,21 @@ impl Property for C04 {
             spec.fail_at = Some(1 + dch.upto(16));
         }
         let mut omitted = None;
+        let spec_complete = spec.clone();
         if !must.is_empty() && dch.chance(1, 8) {
             let victim = must[dch.upto(must.len())];
             spec.layout.retain(|i| *i != victim);
             omitted = Some(built.sigs[victim].name.clone());
+        }
+        // in half of the cases the pure outputs are declared 1-6 bits wide: the device's values (100..=105) do not fit,
+        // and an expression still reads exactly the value the driver returned
+        if dch.chance(1, 2) {
+            out.class("outputs-narrower-than-the-device-values");
+            for sg in built.sigs.iter_mut() {
+                if matches!(sg.kind, Kind::Out) && dch.chance(2, 3) {
+                    sg.bits = *dch.choose(&[1usize, 2, 3, 4, 6]);
+                }
+            }
         }
         render_case(&mut out, &text, &built.sigs, Some(&spec));
         let f = feats(&built);
@@ -112,6 +123,15 @@ impl Property for C04 {
         let Some(tc) = load_wellformed(&mut out, "c04", &text, &built.sigs) else {
             return out;
         };
+        // (in half of the refusal cases another iterator over the same TestCase ran before, with a driver that supplies
+        // everything: constructing the second one must fail all the same)
+        if omitted.is_some() && dch.chance(1, 2) {
+            out.class("complete-driver-ran-before-the-omitting-one");
+            let mut pre = spec_complete.clone();
+            pre.fail_at = None;
+            pre.deviate_at = None;
+            let _ = run_real(&tc, &built.sigs, &pre, &RunOpts { max_next: 1 + dch.upto(3), ..Default::default() });
+        }
         let real = run_real(
             &tc,
             &built.sigs,
